@@ -33,9 +33,9 @@ def _run_view(prop: str, tier: str, prog: Program, seed: int):
 def run_property(prop: str, tier: str, program: Program | None = None, write: bool = True, quiet: bool = False):
     """Decide the property on the program as written; if that view does not pass, also on the normalised view
     (helpers introduced since the confirmed baseline inlined, see normalise.py).  The two views are the same program,
-    so a pass on either is a pass; otherwise the verdict of the view as written stands (the normalised view is only
-    ever used to discharge, never to accuse: its shapes are machine-made and a rule that does not recognise one of
-    them says nothing about the program)."""
+    so a pass on either is a pass.  If the view as written is undecided and the normalised view violates a rule, that
+    violation is reported (marked as found on the normalised view); a violation on the view as written always stands
+    unless the normalised view passes."""
     seed = int(os.environ.get("VERIF_SEED", "0") or 0)
     prog = program or Program()
     if os.environ.get("OPTYX_VIEW_ONLY"):       # debugging aid: decide on the normalised view alone
@@ -65,6 +65,20 @@ def run_property(prop: str, tier: str, program: Program | None = None, write: bo
             first = [ln for ln in getattr(rep, "result_lines", []) if not ln.startswith("VIOLATION")][:6]
             if code1 == 0:
                 rep1.note("verdict reached on the normalised view (new helpers inlined); the view as written gave: " + " | ".join(first))
+                code, rep = code1, rep1
+            elif code == 2 and code1 == 1:
+                # the view as written cannot be decided (e.g. the code under a rule moved into a new helper) and the
+                # equivalent normalised program violates a rule: report it, naming the view
+                rep1.note("violation found on the normalised view (new helpers inlined: " + "; ".join(view.inlined[:6]) + "); the view as written was undecided: " + " | ".join(first))
+                for o in rep1.obs:
+                    if not o.ok:
+                        o.msg = "[found on the normalised view: new helpers inlined] " + o.msg
+                        # view positions -> positions of the statement in the real source
+                        if o.loc and ":" in o.loc:
+                            rel, _, ln = o.loc.rpartition(":")
+                            mp = getattr(view, "line_maps", {}).get(rel)
+                            if mp and ln.isdigit() and int(ln) in mp:
+                                o.loc = f"{rel}:{mp[int(ln)]}"
                 code, rep = code1, rep1
     rep.quiet = quiet
     rep.finish(write=write, raise_undecided=False)
